@@ -121,6 +121,8 @@ PoolDepth3(u) == Nodes({Ty(k, 0, <<T>>) : k \in {"vec", "flist", "opt", "deq"}, 
                     \cup {Ty("map", 0, <<Arith(4), V>>) : V \in C3}, "red")
 \* up to CacheCap (+1) variable-length C strings in one statement (C11's quantifier; cfg sets MaxArgs)
 PoolCstr(u) == {[ty |-> Leaf("cstr"), val |-> CStr(FALSE, <<1>>)]}
+\* many std::string / string_view arguments in one statement: they do not use the size cache, however many there are
+PoolStrs(u) == {[ty |-> Leaf("str"), val |-> <<1>>]}
 \* scalar-only statements (no string, container or user type): the sanitiser must still see a non-printable plain char
 PoolScalars(u) == Nodes({Arith(1), Arith(4), Arith(8), Leaf("ptr")}, "full")
 \* index alignment: a COMPOSITE of every kind holding size-cache users, FOLLOWED by another size-cache user
@@ -141,6 +143,7 @@ Pool == CASE PoolName = "depth2" -> PoolDepth2(0)
           [] PoolName = "pairsx" -> PoolPairsX(0)
           [] PoolName = "depth3" -> PoolDepth3(0)
           [] PoolName = "cstr" -> PoolCstr(0)
+          [] PoolName = "strs" -> PoolStrs(0)
           [] PoolName = "scalars" -> PoolScalars(0)
           [] PoolName = "align" -> {}
           [] PoolName = "none" -> {}
